@@ -5,6 +5,7 @@ package main
 const driverTmpl = `package main
 
 import (
+	"mime/multipart"
 	"bytes"
 	"encoding/json"
 	"fmt"
@@ -41,6 +42,7 @@ type tcase struct {
 	URL     string // path + query, already encoded
 	Headers []kv
 	Form    []kv
+	Multipart bool // the form is sent as multipart/form-data instead of application/x-www-form-urlencoded
 	Body    *string
 	CType   string
 	// client mode
@@ -173,6 +175,15 @@ func main() {
 				var body io.Reader
 				if c.Body != nil {
 					body = strings.NewReader(*c.Body)
+				} else if c.Form != nil && c.Multipart {
+					var mb bytes.Buffer
+					mw := multipart.NewWriter(&mb)
+					for _, f := range c.Form {
+						_ = mw.WriteField(f.K, f.V)
+					}
+					_ = mw.Close()
+					body = &mb
+					c.CType = mw.FormDataContentType()
 				} else if c.Form != nil {
 					vals := url.Values{}
 					for _, f := range c.Form {
@@ -300,7 +311,7 @@ func setAuths(api reflect.Value) {
 		return "", errors.Unauthenticated("basic")
 	})
 	set("OauthAuth", func(a []reflect.Value) (string, error) {
-		have := map[string][]string{"t-read": {"read"}, "t-rw": {"read", "write"}}[a[0].String()]
+		have := map[string][]string{"t-read": {"read"}, "t-rw": {"read", "write"}, "t-all": {"read", "write", "admin"}}[a[0].String()]
 		if have == nil {
 			return "", errors.Unauthenticated("oauth")
 		}
